@@ -73,7 +73,8 @@ var modelledBy = map[string][]string{
 		"resolver:Resolver.GetInfo", "resolver:Resolver.Resolve"},
 	"C14": lifecycleAll, "C15": lifecycleAll,
 	"C16": cat(lifecycleAll, readerPath, []string{"service:Service.HandleMessage", "service:Service.getInfo", "service:Service.getInterfaceDescription"}),
-	"C17": cat(readerPath, []string{"conn:var aLongTimeAgo", "bridge:PipeCon.SetReadDeadline", "bridge:PipeCon.SetWriteDeadline", "service:Service.handleConnection"}),
+	"C17": cat(readerPath, []string{"conn:var aLongTimeAgo", "bridge:PipeCon.SetReadDeadline", "bridge:PipeCon.SetWriteDeadline", "service:Service.handleConnection",
+		"connection:Connection.Send", "connection:Connection.Call", "connection:Connection.Upgrade"}),
 	"C18": cat(readerPath, []string{"connection:Connection.Upgrade", "call:type Call"}),
 	"C19": {"service:Service.parseAddress", "service:Service.Bind", "service:Service.setListener", "service:Service.teardown",
 		"connection:NewConnection", "listen_1.11:listen"},
